@@ -188,6 +188,64 @@ def run(tier):
         rej += a[1] == "1"
         v.distinct((name, text[:200], len(text), bufk, mode))
     stats.update({"sweep_inputs": len(sw), "sweep_calls": len(cases), "sweep_accepted": acc, "sweep_rejected": rej})
+    # ---- (b2) the LONGEST encodings the library can emit, in every mode and chunk geometry. Whatever the library does with an
+    # immediate the destination cannot hold (it emits up to 17 bytes for 'add qword [eax+ebx*8+disp32], imm40'), every path that
+    # handles an instruction - plain, padding + re-encoding in chunk fitting, counting - must cope with that length.
+    mems = ["[rax]", "[rax+rbx*8+0x11223344]", "[eax+ebx*8+0x11223344]", "[r8d+r9d*8-0x11223344]", "[4*r12+0x100]", "[0x11223344]", "[rsp+r13*2+0x80]"]
+    imms = ["1", "0x7f", "0x80", "0x1122", "0x11223344", "0x80000000", "0x1122334455", "0x1122334455667788", "-1", "-0x1122334455", "0xffffffffffffffff"]
+    longl = []
+    for mn in isa.ALU + ["test", "mov"]:
+        for mm in mems:
+            for kw in ("", "byte ", "word ", "dword ", "qword "):
+                for im in imms:
+                    longl.append("%s %s%s, %s" % (mn, kw, mm, im))
+    longl += ["mov r15, 0x1122334455667788", "imul r9, [eax+ebx*8+0x11223344], 0x11223344", "imul r9w, [eax+ebx*8+0x11223344], 0x1122", "shld [r8d+r9d*8+0x11223344], r10, 0x7f",
+              "shld word [r8d+r9d*8+0x11223344], r10w, 5", "vperm2i128 ymm9, ymm10, [r8d+r9d*8+0x11223344], 0xff", "vpaddb ymm9, ymm10, [r8d+r9d*8+0x11223344]", "push 0x11223344", "push 0x1122334455",
+              "jmp far qword [r8d+r9d*8+0x11223344]", "call qword [r8d+r9d*8+0x11223344]", "movq xmm9, [r8d+r9d*8+0x11223344]", "pmulhrsw xmm9, [r8d+r9d*8+0x11223344]", "rorx r9, [r8d+r9d*8+0x11223344], 63",
+              "bextr r9, [r8d+r9d*8+0x11223344], r10", "xbegin 0x11223344", "mov word [r8d+r9d*8+0x11223344], 0x1122", "nop11", "cmovnbe r9w, [r8d+r9d*8+0x11223344]", "movzx r9w, byte [r8d+r9d*8+0x11223344]"]
+    if not full:
+        longl = rnd.sample(longl[:-20], 700) + longl[-20:]
+    probe = common.run_lines(asan, [("211", l, 0) for l in longl], tag="c09l")
+    cases, meta = [], []
+    lens_seen = {}
+    for l, pr in zip(longl, probe):
+        v.count()
+        if "crash" in pr:
+            v.violation({"key": "long %r" % l, "fam": "sweep_long", "text": l}, pr["crash"]["sig"], pr["crash"]["stderr"][-1500:])
+            continue
+        if pr["rc"] != 0:
+            continue
+        L = len(pr["bytes"]) // 2
+        lens_seen[L] = lens_seen.get(L, 0) + 1
+        geos = set()
+        for c in (L - 1, L, L + 1, L + 2, 16, 17, 18, 20, 32):
+            if c < 2:
+                continue
+            for kpre in (c - 1, max(0, c - L + 1), rnd.randrange(0, c)):
+                geos.add((c, kpre))
+        for (c, kpre) in (sorted(geos) if full else rnd.sample(sorted(geos), 5)):
+            text = "\n".join(["clc"] * kpre + [l, l, "ret"])
+            for bufk, mode in (("ext", "fit"), ("int", "fit"), ("ext", "cnt")) if (full or (c + kpre) % 2) else (("ext", "fit"),):
+                cmds = ["new 0 int" if bufk == "int" else "new 0 ext 400 H 0xcc"]
+                if mode == "fit":
+                    cmds.append("chunk 0 %d" % c)
+                cmds.append(("cnt 0 %d %%s" % c if mode == "cnt" else "asm 0 %s") % common.hx(text))
+                cmds.append("getoff 0")
+                cases.append(cmds)
+                meta.append((l, L, c, kpre, bufk, mode))
+    res = common.run_cases(asan, cases, tag="c09g", per_case_timeout=20)
+    for (l, L, c, kpre, bufk, mode), r in zip(meta, res):
+        v.count()
+        case = {"key": "long %r len=%d chunk=%d after %d bytes %s/%s" % (l, L, c, kpre, bufk, mode), "fam": "sweep_long", "text": l, "len": L, "c": c}
+        if r["crash"]:
+            v.violation(case, r["crash"]["sig"], (r["crash"]["what"] + "\n" + r["crash"]["stderr"][-1500:]))
+            continue
+        a = r["records"][-2].split()
+        if a[0] != "A" or a[1] not in ("0", "1"):
+            v.violation(case, "return-value-not-0/1", r["records"][-2])
+            continue
+        v.distinct(("long", l, c, kpre, bufk, mode))
+    stats.update({"long_encoding_lines": len(longl), "long_encoding_lengths_seen": dict(sorted(lens_seen.items())), "long_encoding_geometry_calls": len(cases)})
     v.sample({"sweep": "len100", "text": [t for n, t in sw if n == "len100"][0]})
     v.sample({"sweep": "keywords", "text": [t for n, t in sw if n == "keywords"][5]})
     # ------------------------------------------------------------------ (c) MSan replay of seeds + the fuzzer's corpus + sweeps
@@ -246,7 +304,7 @@ def run(tier):
     v.cov["rule"] = ("(a) libFuzzer (clang, ASan+UBSan, reports fatal) on a structure-aware target: 8 control bytes choose option values (incl. out-of-range), entry point (str, str+fitting, counting, file, file-counting, "
                      "two calls), chunk size, caller/library buffer, buffer length and start offset, the rest is the NUL-terminated text; dictionary of all mnemonics/registers/keywords/punctuation, seeds = the C01-C05 "
                      "corpora; %d jobs x %d runs; (b) directed sweeps: filtered line lengths 90-110 x 12 line shapes x 13 last-token kinds, 0-8 operands, every keyword pair, every byte value at every position of 6 templates, "
-                     "1 MiB lines, 10^5-line programs, on caller and library buffers in plain/fitting/counting mode; (c) seeds + fuzzer corpus + sweeps replayed under MemorySanitizer. Oracle: no sanitizer report, no signal, "
+                     "1 MiB lines, 10^5-line programs, on caller and library buffers in plain/fitting/counting mode; the longest encodings the library emits (ALU/test/mov x 7 memory shapes x size keywords x immediates of 1-8 bytes, incl. ones the destination cannot hold: up to 17 bytes) x chunk sizes around their length x fill levels of the chunk, fitting and counting; (c) seeds + fuzzer corpus + sweeps replayed under MemorySanitizer. Oracle: no sanitizer report, no signal, "
                      "no hang (10 s watchdog), return value in {0,1}. distinct_nontrivial = distinct directed cases + coverage edges reached by the fuzzer" % (njobs, per))
     v.cov["exhaustive"] = False
     v.cov.update(stats)
